@@ -177,12 +177,12 @@ class RegExp:
         if self._sticky:
             result = vm.match(string, self.lastIndex)
             if result:
-                if self._global:
+                if self._global or self._sticky:
                     self.lastIndex = (
                         result.index + len(result[0]) if result[0] else result.index
                     )
                 return True
-            if self._global:
+            if self._global or self._sticky:
                 self.lastIndex = 0
             return False
 
